@@ -199,7 +199,9 @@ class CLI:
             for file in self._args.files:
                 try:
                     mo = MosFile.from_file(file)
-                except MosRoMgrException as e:
+                except (MosRoMgrException, OSError) as e:
+                    # an unreadable file (missing, a directory, no permission)
+                    # must not stop the remaining files from being processed
                     sys.stderr.write(f"{file}: Invalid\n")
                     continue
                 self.detect_file(mo, file)
